@@ -137,7 +137,11 @@ def _f(rnd, x):
     if x >= 10:
         m, e = ("%.15e" % x).split("e")
         forms.append(m.rstrip("0").rstrip(".") + "e" + str(int(e)))  # exponent form, value unchanged
+        forms.append(m.rstrip("0").rstrip(".") + "e+" + str(int(e)))  # ... with an explicit sign, as '%e' / repr print it
+        forms.append(m.rstrip("0").rstrip(".") + "E+0" + str(int(e)))
     if 0 < x < 1:
+        m, e = ("%.15e" % x).split("e")
+        forms.append(m.rstrip("0").rstrip(".") + "e" + str(int(e)))  # '5e-2'
         forms.append(repr(x).lstrip("0"))  # '.05'
     s = rnd.choice(forms)
     if rnd.random() < 0.15:
